@@ -739,7 +739,7 @@ def svo(cx):
 
 
 # ------------------------------------------------------------------------------------------ L9 sibling classes as values
-@rule("L9", ["C01", "C09", "C05"], "an array built from an xobject of ANOTHER array class (same shape and item type, another axis order, also under the same class name) reads back the source's elements index by index")
+@rule("L9", ["C01", "C09", "C05", "C06"], "an array built from an xobject of ANOTHER array class (same shape and item type, another axis order, also under the same class name) reads back the source's elements index by index")
 def l9(cx):
     """Array classes are made on demand and named after shape and item type only: `Float64[2,3]` and `Float64[2:1,3:0]`
     are two classes with one name and two memory layouts.  The constructor accepts any array-like value; for an xobject
@@ -786,6 +786,7 @@ def l9(cx):
             view = ow.fresh(a)
             out["src"] = {p: v for p, _, v in ow.walk(b, "") if not p.endswith("#")}
             out["got"] = {p: v for p, _, v in ow.walk(view, "") if not p.endswith("#")}
+            out["handle"] = {p: v for p, _, v in ow.walk(a, "") if not p.endswith("#")}
             out["want"] = {f"[{i},{j}]": vals[i][j] for i in range(2) for j in range(3)}
 
         try:
@@ -807,4 +808,9 @@ def l9(cx):
         cx.check(not wrong, None, construct=label, detail="every element of the copy reads the source's element of the same index",
                  bad_detail=(f"element {wrong[0][0]} of the copy reads {wrong[0][1]!r}, the source has {wrong[0][2]!r} ({len(wrong)} of 6 elements differ): the source's bytes were taken over although its class lays them out in another order" if wrong else ""),
                  anchor="array::Array._to_buffer", sub=where)
+        # C06: the handle the constructor returned and the view made afresh from (buffer, offset) read the same
+        differ = [(k, out["handle"].get(k), out["got"].get(k)) for k in sorted(out["want"]) if I._eq(out["handle"].get(k), out["got"].get(k)) is not True]
+        cx.check(not differ, None, construct=label + ": handle vs view", detail="the constructed handle and a view rebuilt from (buffer, offset) read the same element at every index",
+                 bad_detail=(f"element {differ[0][0]}: the handle reads {differ[0][1]!r}, the view rebuilt from (buffer, offset) reads {differ[0][2]!r} ({len(differ)} of 6 differ): what the handle caches for its own class is not what the header / offset table taken over from the source says" if differ else ""),
+                 anchor="array::Array._to_buffer", sub=where + ".handle-view")
     cx.floor(12, "sibling-class value cases")
